@@ -534,6 +534,8 @@ func (c14) Generate(seed uint64, tier string, index int) any {
 		{Path: "zz_sock", Type: "sock", Perm: 0o755, Mtime: 1_500_000_003},
 		{Path: "zz_dir/inner", Type: "f", Perm: 0o604, Mtime: 1_500_000_004, Content: g.Content(1500)},
 		{Path: "zz_file", Type: "f", Perm: 0o751, Mtime: 1_400_000_000, Content: g.Content(3000)},
+		{Path: "zz_trail ", Type: "f", Perm: 0o644, Mtime: 1_400_000_001, Content: g.Content(20)}, // name ends in a blank
+		{Path: "zz_trail", Type: "f", Perm: 0o644, Mtime: 1_400_000_002, Content: g.Content(21)},
 	}
 	for _, e := range must {
 		if sc.Src.Find(string(e.Path)) == nil {
@@ -552,6 +554,9 @@ func (c14) Generate(seed uint64, tier string, index int) any {
 	if g.R.Intn(4) == 0 && len(sc.Src.Entries) > 0 {
 		e := sc.Src.Entries[g.R.Intn(len(sc.Src.Entries))]
 		sc.Opts = append(sc.Opts, "--exclude="+path.Base(string(e.Path)))
+	} else if g.R.Intn(8) == 0 {
+		// a rule must travel over the wire byte for byte
+		sc.Opts = append(sc.Opts, []string{"--exclude=zz_trail ", "--exclude=zz_trail", "--include=zz_trail "}[g.R.Intn(3)])
 	}
 	sc.Tr = g.TransportFor(12, 2*treeBytes(&sc.Src)+treeBytes(&sc.Dst))
 	out := &C14Scenario{Sync: sc, Arrs: []string{"A1", "A2", "A3p", "A3s", "A4"}}
